@@ -2,13 +2,27 @@ NOTES = "All checks are property-based tests (rapid) or exhaustive enumerations 
 
 NOT_APPLICABLE = []
 
-_ALL = ["C%02d" % i for i in range(1, 21)]
+_T = "Trusts the harness's own source walker and golang.org/x/net/html parsing of the generated page; ASCII word tokens only; bounded page size."
 
 TEXT = {
  "C02": {
   "technique": "property-based testing (rapid): generated pages with unique word tokens; oracle = subset / no-duplicate / order-preserving relation between source DOM and both output views",
   "level": "Exploration: thousands of generated article pages per run; every output token of Text and of the HTML view is checked to come from visible source text, once, in source order. Random search cannot show absence; it reaches all block kinds of the grammar with measured frequencies.",
-  "note": "Trusts the harness's source walker and golang.org/x/net/html parsing of the generated page; ASCII tokens only.",
-  "ref": "DESIGN.md 4/C02",
+  "note": _T, "ref": "DESIGN.md 4/C02",
+ },
+ "C03": {
+  "technique": "property-based testing (rapid): generated paragraphs mixing the inline kinds the property names; oracle = per simple <p> of the parsed source, all visible tokens in Text or none",
+  "level": "Exploration: thousands of generated pages, every simple paragraph (by the property's definition, decided on the parsed DOM) is checked for all-or-nothing retention, in body, list items, quotes, layout and data cells.",
+  "note": _T, "ref": "DESIGN.md 4/C03",
+ },
+ "C04": {
+  "technique": "property-based testing (rapid): generated pages with class-A/class-B carriers at every placement; oracle = carrier tokens absent from Text and from serialised HTML outside placeholders",
+  "level": "Exploration: thousands of generated pages per run with carriers at every placement the property lists; the oracle searches both views (text tokens, attribute values, script bodies, comments) for carrier tokens.",
+  "note": _T + " Only the hiding spellings the property names are generated.", "ref": "DESIGN.md 4/C04",
+ },
+ "C05": {
+  "technique": "property-based testing (rapid): generated pages with forbidden attributes on any element and script/style inside wholesale-cloned subtrees; oracle = structural scan of Result.Node",
+  "level": "Exploration: thousands of generated pages per run; every element and attribute of the distilled tree is scanned for script/style elements, on* handlers, id/class/style/data-* attributes (placeholder wrapper markers excepted).",
+  "note": _T, "ref": "DESIGN.md 4/C05",
  },
 }
